@@ -1735,6 +1735,67 @@ def Module.wf (m : Module) : Bool :=
   m.major == supportedMajor && decide (m.sections.length < 65536)
     && m.sections.all (Section.wf m.minor) && lenOk (encodedSize m.minor m.sections)
 
+/-! ## the debug map of an emitted container
+
+Not part of `validate` (which only bounds a debug entry by its POU's code range, end included): what
+the compiler is expected to emit — every debug entry of a POU points at the first byte of one of its
+instructions, and the entries of a POU appear in emission order. -/
+
+/-- the entry lies inside its POU's code and on an instruction start (as the validator walks it) -/
+def debugEntryOk (index : List PouEntry) (types : List TypeEntry) (bodies : Bytes) (e : DebugEntry) : Bool :=
+  match index.find? (fun p => p.id == e.pouId) with
+  | none => false
+  | some pou =>
+    let start := pou.codeOffset.toNat
+    let len := pou.codeLength.toNat
+    let off := e.codeOffset.toNat
+    if start + len > bodies.length then false
+    else if off < start ∨ off ≥ start + len then false
+    else
+      match walkInstructions index types len 0 (sliceOf bodies start (start + len)) {} with
+      | .ok w => w.starts.contains (off - start)
+      | .error _ => false
+
+/-- consecutive entries of the same POU have non-decreasing code offsets -/
+def debugOrderOk : List DebugEntry → Bool
+  | a :: b :: rest => (a.pouId != b.pouId || decide (a.codeOffset.toNat ≤ b.codeOffset.toNat)) && debugOrderOk (b :: rest)
+  | _ => true
+
+def debugMapOk (m : Module) : Bool :=
+  match getPouIndex m, getPouBodies m, getTypes m, m.section idDebugMap with
+  | .ok index, .ok bodies, .ok types, some (.debugMap dm) =>
+    dm.all (debugEntryOk index types.entries bodies) && debugOrderOk dm
+  | _, _, _, _ => true
+
+/-! ## abstract emitter (bytecode/encoder/codegen.rs)
+
+`emit_stmt` pushes a debug entry carrying the current code length, then the statement's emitter
+appends code (and, through nested statements, more debug entries).  A statement that turns out not
+to be encodable is rolled back to the snapshot taken at its start — `code.truncate(code_start);
+debug_entries.truncate(debug_start);` — and replaced by a NOP. -/
+
+structure Emitter where
+  code : Bytes := []
+  /-- code offsets of the debug entries, in push order -/
+  debug : List Nat := []
+  deriving DecidableEq, Repr
+
+namespace Emitter
+/-- `debug_entries.push(DebugEntry { code_offset: code.len(), .. })` -/
+def pushDebug (e : Emitter) : Emitter := { e with debug := e.debug ++ [e.code.length] }
+/-- `code.push(..)` / `code.extend_from_slice(..)` -/
+def emitBytes (e : Emitter) (bs : Bytes) : Emitter := { e with code := e.code ++ bs }
+/-- `code.truncate(code_start); debug_entries.truncate(debug_start);` -/
+def rollback (e : Emitter) (codeStart debugStart : Nat) : Emitter :=
+  { code := e.code.take codeStart, debug := e.debug.take debugStart }
+/-- the faulty variant: only the code is truncated -/
+def rollbackCodeOnly (e : Emitter) (codeStart : Nat) : Emitter := { e with code := e.code.take codeStart }
+/-- `e` was reached from the snapshot `s` by pushes and appends only -/
+def Extends (e s : Emitter) : Prop := (∃ c, e.code = s.code ++ c) ∧ (∃ d, e.debug = s.debug ++ d)
+/-- every debug entry points into (or at the end of) the code, and the entries are in emission order -/
+def Inv (e : Emitter) : Prop := (∀ d ∈ e.debug, d ≤ e.code.length) ∧ e.debug.Pairwise (· ≤ ·)
+end Emitter
+
 /-! ## example data (non-vacuity examples and the counterexample of Props/C11.lean) -/
 
 /-- a small module with every required section: one program whose body jumps to its end, one
